@@ -330,7 +330,7 @@ Spec == Init /\ [][Next]_vars
 
 AtEnd == l = NRec + 1
 Brief == IF AtEnd THEN [l |-> l, bad |-> bad] ELSE [l |-> l]
-Holds(p) == AtEnd => \A b \in bad : b[1] # p
+Holds(p) == AtEnd => NoneFor(bad, p)
 C07 == Holds("C07")
 C08 == Holds("C08")
 C09 == Holds("C09")
